@@ -104,12 +104,15 @@ fn is_trivial(p: &[u8]) -> bool {
 struct Case<'a, C: Suite> {
     out: &'a mut dyn Write,
     n: u64,
+    /// how the object under test was produced
+    variant: String,
     _p: std::marker::PhantomData<C>,
 }
 
 impl<'a, C: Suite> Case<'a, C> {
-    fn ev(&mut self, v: Value) {
+    fn ev(&mut self, mut v: Value) {
         self.n += 1;
+        v["variant"] = json!(self.variant);
         let _ = writeln!(self.out, "{}", v);
     }
 
@@ -167,7 +170,7 @@ impl<'a, C: Suite> Case<'a, C> {
 }
 
 pub fn run<C: Suite>(seed: u64, rounds: u64, f: &mut dyn Write) -> u64 {
-    let mut c = Case::<C> { out: f, n: 0, _p: Default::default() };
+    let mut c = Case::<C> { out: f, n: 0, variant: String::new(), _p: Default::default() };
     let _ = writeln!(c.out, "{}", json!({"op": "reset", "suite": C::NAME, "seed": seed}));
     let mut rng = SeedRng::new(seed);
     for _ in 0..rounds {
@@ -191,50 +194,162 @@ pub fn run<C: Suite>(seed: u64, rounds: u64, f: &mut dyn Write) -> u64 {
         let r2p = r2ps.values().next().cloned().unwrap();
         let r2p_s = r2p.signing_share().to_scalar();
 
-        // ---- drop
-        c.drop_test("SigningKey", sk.clone(), &[sk_s]);
-        c.drop_test("SecretShare", ss1.clone(), &[share]);
-        c.drop_test("KeyPackage", kp1.clone(), &[share]);
-        c.drop_test("SigningNonces", nonces.clone(), &[hn, bn]);
-        c.drop_test("dkg::round1::SecretPackage", r1s.clone(), &coeffs);
-        c.drop_test("dkg::round2::SecretPackage", r2s.clone(), &[r2_own]);
-        c.drop_test("dkg::round2::Package", r2p.clone(), &[r2p_s]);
+        // ---- the same types by other routes: restored from their encodings, produced by the refresh
+        // procedures (zero constant term), by a larger threshold, by batch pre-processing, by repair
+        use frost_core::keys::refresh;
+        let mut v_r1s: Vec<(&str, dkg::round1::SecretPackage<C>)> = vec![("part1", r1s.clone())];
+        if let Ok(b) = r1s.serialize() {
+            if let Ok(x) = dkg::round1::SecretPackage::<C>::deserialize(&b) {
+                v_r1s.push(("restored", x));
+            }
+        }
+        if let Ok((x, _)) = dkg::part1::<C, _>(id1, 6, 5, &mut rng) {
+            v_r1s.push(("part1_t5", x));
+        }
+        let mut v_r2s: Vec<(&str, dkg::round2::SecretPackage<C>)> = vec![("part2", r2s.clone())];
+        if let Ok(b) = r2s.serialize() {
+            if let Ok(x) = dkg::round2::SecretPackage::<C>::deserialize(&b) {
+                v_r2s.push(("restored", x));
+            }
+        }
+        let mut v_r2p: Vec<(&str, dkg::round2::Package<C>)> = vec![("part2", r2p.clone())];
+        {
+            // distributed refresh among the three dealer-keyed participants
+            let ids: Vec<_> = shares.keys().cloned().collect();
+            let mut secs = BTreeMap::new();
+            let mut pkgs = BTreeMap::new();
+            for i in &ids {
+                if let Ok((s1, p1)) = refresh::refresh_dkg_part1::<C, _>(*i, 3, 2, &mut rng) {
+                    secs.insert(*i, s1);
+                    pkgs.insert(*i, p1);
+                }
+            }
+            if let Some(s1) = secs.get(&id1) {
+                v_r1s.push(("refresh_part1", s1.clone()));
+                if let Ok(b) = s1.serialize() {
+                    if let Ok(x) = dkg::round1::SecretPackage::<C>::deserialize(&b) {
+                        v_r1s.push(("refresh_restored", x));
+                    }
+                }
+                let others: BTreeMap<_, _> = pkgs.iter().filter(|(k, _)| **k != id1).map(|(k, v)| (*k, v.clone())).collect();
+                if let Ok((s2, ps)) = refresh::refresh_dkg_part2(s1.clone(), &others) {
+                    v_r2s.push(("refresh_part2", s2));
+                    if let Some(p) = ps.values().next() {
+                        v_r2p.push(("refresh_part2", p.clone()));
+                    }
+                }
+            }
+        }
+        let mut v_ss: Vec<(&str, SecretShare<C>)> = vec![("dealer", ss1.clone())];
+        let mut v_kp: Vec<(&str, KeyPackage<C>)> = vec![("dealer", kp1.clone())];
+        if let Ok(b) = ss1.serialize() {
+            if let Ok(x) = SecretShare::<C>::deserialize(&b) {
+                v_ss.push(("restored", x));
+            }
+        }
+        if let Ok(b) = kp1.serialize() {
+            if let Ok(x) = KeyPackage::<C>::deserialize(&b) {
+                v_kp.push(("restored", x));
+            }
+        }
+        {
+            let ids: Vec<_> = shares.keys().cloned().collect();
+            if let Ok((zs, _npkp)) = refresh::compute_refreshing_shares::<C, _>(_pkp.clone(), &ids, &mut rng) {
+                if let Some(z) = zs.iter().find(|z| *z.identifier() == id1) {
+                    v_ss.push(("refreshing", z.clone()));
+                    if let Ok(k) = refresh::refresh_share(z.clone(), &kp1) {
+                        v_kp.push(("refreshed", k));
+                    }
+                }
+            }
+        }
+        let mut v_non: Vec<(&str, SigningNonces<C>)> = vec![("commit", nonces.clone())];
+        if let Ok(b) = nonces.serialize() {
+            if let Ok(x) = SigningNonces::<C>::deserialize(&b) {
+                v_non.push(("restored", x));
+            }
+        }
+        {
+            let (mut ns, _) = frost::round1::preprocess(3, kp1.signing_share(), &mut rng);
+            if let Some(x) = ns.pop() {
+                v_non.push(("batch", x));
+            }
+            v_non.push(("from_nonces", SigningNonces::from_nonces(*nonces.hiding(), *nonces.binding())));
+        }
+        let mut v_sk: Vec<(&str, SigningKey<C>)> = vec![("new", sk.clone())];
+        if let Ok(x) = SigningKey::<C>::deserialize(&sk.serialize()) {
+            v_sk.push(("restored", x));
+        }
 
-        // ---- zeroize on request
-        let mut x = ss1.clone();
-        x.zeroize();
-        c.zeroize_test("SecretShare", vec![x.signing_share().to_scalar()]);
-        let mut x = kp1.clone();
-        x.zeroize();
-        c.zeroize_test("KeyPackage", vec![x.signing_share().to_scalar()]);
-        let mut x = nonces.clone();
-        x.zeroize();
-        c.zeroize_test("SigningNonces", vec![x.hiding().to_scalar(), x.binding().to_scalar()]);
-        let mut x = r1s.clone();
-        x.zeroize();
-        c.zeroize_test("dkg::round1::SecretPackage", x.coefficients());
-        let mut x = r2s.clone();
-        x.zeroize();
-        c.zeroize_test("dkg::round2::SecretPackage", vec![x.secret_share()]);
-        let mut x = r2p.clone();
-        x.zeroize();
-        c.zeroize_test("dkg::round2::Package", vec![x.signing_share().to_scalar()]);
-        let mut x: SigningShare<C> = *kp1.signing_share();
-        x.zeroize();
-        c.zeroize_test("SigningShare", vec![x.to_scalar()]);
-        let mut x: Nonce<C> = *nonces.hiding();
-        x.zeroize();
-        c.zeroize_test("Nonce", vec![x.to_scalar()]);
-
-        // ---- debug rendering
-        c.debug_test("SigningKey", format!("{:?} {:#?}", sk, sk), &[sk_s]);
-        c.debug_test("SigningShare", format!("{:?} {:#?}", kp1.signing_share(), kp1.signing_share()), &[share]);
-        c.debug_test("SecretShare", format!("{:?} {:#?}", ss1, ss1), &[share]);
-        c.debug_test("KeyPackage", format!("{:?} {:#?}", kp1, kp1), &[share]);
-        c.debug_test("SigningNonces", format!("{:?} {:#?}", nonces, nonces), &[hn, bn]);
-        c.debug_test("dkg::round1::SecretPackage", format!("{:?} {:#?}", r1s, r1s), &coeffs);
-        c.debug_test("dkg::round2::SecretPackage", format!("{:?} {:#?}", r2s, r2s), &[r2_own]);
-        c.debug_test("dkg::round2::Package", format!("{:?} {:#?}", r2p, r2p), &[r2p_s]);
+        for (variant, x) in v_sk.iter() {
+            let sec = [x.clone().to_scalar()];
+            c.variant = variant.to_string();
+            c.drop_test("SigningKey", x.clone(), &sec);
+            c.debug_test("SigningKey", format!("{:?} {:#?} {:x?} {:#X?}", x, x, x, x), &sec);
+        }
+        for (variant, x) in v_ss.iter() {
+            let sec = [x.signing_share().to_scalar()];
+            c.variant = variant.to_string();
+            c.drop_test("SecretShare", x.clone(), &sec);
+            let mut y = x.clone();
+            y.zeroize();
+            c.zeroize_test("SecretShare", vec![y.signing_share().to_scalar()]);
+            c.debug_test("SecretShare", format!("{:?} {:#?} {:x?} {:#X?}", x, x, x, x), &sec);
+        }
+        for (variant, x) in v_kp.iter() {
+            let sec = [x.signing_share().to_scalar()];
+            c.variant = variant.to_string();
+            c.drop_test("KeyPackage", x.clone(), &sec);
+            let mut y = x.clone();
+            y.zeroize();
+            c.zeroize_test("KeyPackage", vec![y.signing_share().to_scalar()]);
+            c.debug_test("KeyPackage", format!("{:?} {:#?} {:x?} {:#X?}", x, x, x, x), &sec);
+            let sh = x.signing_share();
+            c.debug_test("SigningShare", format!("{:?} {:#?} {:x?} {:#X?}", sh, sh, sh, sh), &sec);
+            let mut y: SigningShare<C> = *sh;
+            y.zeroize();
+            c.zeroize_test("SigningShare", vec![y.to_scalar()]);
+        }
+        for (variant, x) in v_non.iter() {
+            let sec = [x.hiding().to_scalar(), x.binding().to_scalar()];
+            c.variant = variant.to_string();
+            c.drop_test("SigningNonces", x.clone(), &sec);
+            let mut y = x.clone();
+            y.zeroize();
+            c.zeroize_test("SigningNonces", vec![y.hiding().to_scalar(), y.binding().to_scalar()]);
+            c.debug_test("SigningNonces", format!("{:?} {:#?} {:x?} {:#X?} {:#?}", x, x, x, x, (x, 1u8)), &sec);
+            let mut y: Nonce<C> = *x.hiding();
+            y.zeroize();
+            c.zeroize_test("Nonce", vec![y.to_scalar()]);
+        }
+        for (variant, x) in v_r1s.iter() {
+            let sec = x.coefficients();
+            c.variant = variant.to_string();
+            c.drop_test("dkg::round1::SecretPackage", x.clone(), &sec);
+            let mut y = x.clone();
+            y.zeroize();
+            c.zeroize_test("dkg::round1::SecretPackage", y.coefficients());
+            c.debug_test("dkg::round1::SecretPackage", format!("{:?} {:#?} {:x?} {:#X?}", x, x, x, x), &sec);
+        }
+        for (variant, x) in v_r2s.iter() {
+            let sec = [x.secret_share()];
+            c.variant = variant.to_string();
+            c.drop_test("dkg::round2::SecretPackage", x.clone(), &sec);
+            let mut y = x.clone();
+            y.zeroize();
+            c.zeroize_test("dkg::round2::SecretPackage", vec![y.secret_share()]);
+            c.debug_test("dkg::round2::SecretPackage", format!("{:?} {:#?} {:x?} {:#X?}", x, x, x, x), &sec);
+        }
+        for (variant, x) in v_r2p.iter() {
+            let sec = [x.signing_share().to_scalar()];
+            c.variant = variant.to_string();
+            c.drop_test("dkg::round2::Package", x.clone(), &sec);
+            let mut y = x.clone();
+            y.zeroize();
+            c.zeroize_test("dkg::round2::Package", vec![y.signing_share().to_scalar()]);
+            c.debug_test("dkg::round2::Package", format!("{:?} {:#?} {:x?} {:#X?}", x, x, x, x), &sec);
+        }
+        let _ = (hn, bn, sk_s, share, coeffs.len(), r2_own, r2p_s);
         let _ = (SecretShare::<C>::clone(&ss1), SigningNonces::<C>::clone(&nonces));
     }
     c.n
